@@ -102,11 +102,27 @@ class SourceStructure:
         self.sections = None
         self.construct()
 
+    def _string_lines(self):
+        """Numbers (0-based) of the lines that continue a string literal"""
+        import io
+        lines = set()
+        try:
+            for tok in tokenize.generate_tokens(
+                    io.StringIO(self.source).readline):
+                if tok.type == tokenize.STRING and tok.end[0] > tok.start[0]:
+                    lines.update(range(tok.start[0], tok.end[0]))
+        except (tokenize.TokenError, SyntaxError):
+            pass
+        return lines
+
     def construct(self):
         self.sections = {}
         sec = "DEFAULT"
         is_divider_read = False
+        in_string = self._string_lines()
         for i, line in enumerate(self.source.split("\n")):
+            if i in in_string:
+                continue    # a doc string may contain the divider line
             if is_divider_read:
                 sec = next(
                     (sec.id for sec in SECTIONS.values()
